@@ -283,9 +283,12 @@ def run_stream(stream, seed, tier, outdir, extra=None, timeout=3000):
     return r.returncode == 0, r.stdout
 
 
-def run_driver(mode, outdir, timeout=3000):
+def run_driver(mode, outdir, timeout=1500):
     with open(os.path.join(outdir, "ops.txt")) as fi, open(os.path.join(outdir, "model.txt"), "w") as fo:
-        r = subprocess.run([DRIVER, mode], stdin=fi, stdout=fo, stderr=subprocess.PIPE, text=True, timeout=timeout)
+        try:
+            r = subprocess.run([DRIVER, mode], stdin=fi, stdout=fo, stderr=subprocess.PIPE, text=True, timeout=timeout)
+        except subprocess.TimeoutExpired:
+            return False, f"model driver did not finish within {timeout}s"
     return r.returncode == 0, r.stderr
 
 
